@@ -30,27 +30,34 @@ func (s *InMemoryStore) VerifC40Snapshot() string {
 				p.Partition, p.ErrorCode, p.Leader, p.LeaderEpoch, p.Replicas, p.ISR, p.OfflineReplicas)
 		}
 	}
-	dumpInt := func(tag string, m map[string]int64) {
-		keys := make([]string, 0, len(m))
-		for k := range m {
-			keys = append(keys, k)
-		}
-		sort.Strings(keys)
-		for _, k := range keys {
-			fmt.Fprintf(&b, "%s %q=%d\n", tag, k, m[k])
+	// keys are rendered with %+v so the dump does not depend on the key type of these maps
+	// (string before, struct {group, topic, partition} after the C16 fix)
+	dumpInt := func(tag string, lines []string) {
+		sort.Strings(lines)
+		for _, l := range lines {
+			fmt.Fprintf(&b, "%s %s\n", tag, l)
 		}
 	}
-	dumpInt("offset", s.offsets)
-	dumpInt("committed", s.consumerOffsets)
 	{
-		keys := make([]string, 0, len(s.consumerMeta))
-		for k := range s.consumerMeta {
-			keys = append(keys, k)
+		var ls []string
+		for k, v := range s.offsets {
+			ls = append(ls, fmt.Sprintf("%q=%d", fmt.Sprintf("%+v", k), v))
 		}
-		sort.Strings(keys)
-		for _, k := range keys {
-			fmt.Fprintf(&b, "commitmeta %q=%q\n", k, s.consumerMeta[k])
+		dumpInt("offset", ls)
+	}
+	{
+		var ls []string
+		for k, v := range s.consumerOffsets {
+			ls = append(ls, fmt.Sprintf("%q=%d", fmt.Sprintf("%+v", k), v))
 		}
+		dumpInt("committed", ls)
+	}
+	{
+		var ls []string
+		for k, v := range s.consumerMeta {
+			ls = append(ls, fmt.Sprintf("%q=%q", fmt.Sprintf("%+v", k), v))
+		}
+		dumpInt("commitmeta", ls)
 	}
 	det := proto.MarshalOptions{Deterministic: true}
 	{
